@@ -3,10 +3,22 @@
 Model: lean/GscribModel/Model/Socket.lean (driver mode `socket`); theorems: Props/C17.lean.
 Implementation: gscrib.printrun.device.Device.readline() on a real Device whose `_socketfile`
 and `_selector` are scripted (the same seam the repository's own tests use).
+
+Two families:
+ * one connection per Device (fields of a fresh Device set by hand, as the repository's tests do);
+ * one Device serving several consecutive connections through the real `connect()` / `disconnect()`
+   (socket creation and the selector are scripted, see `_Net`), judged over the whole life of the Device.
+   Observation (not a finding): bytes still buffered when the HOST disconnects are not discarded; they are
+   carried into the next connection and come out in front of its first line (`ok\nT:2` read up to `ok\n`,
+   disconnect, connect, `start\n` -> `T:2start\n`).  Nothing is lost, duplicated or reordered, so the property as
+   stated holds; the whole-life oracle therefore cuts the concatenation of everything the Device received
+   after each newline and, additionally, at each close by the PEER.
 """
 from __future__ import annotations
 
+import contextlib
 import itertools
+import random
 
 from . import core
 
@@ -20,8 +32,14 @@ class _SockFile:
     def __init__(self, reads):
         self.reads = list(reads)
         self.i = 0
+        self.closed = False
+
+    def close(self):
+        self.closed = True
 
     def read(self, n):
+        if self.closed:
+            raise ValueError("I/O operation on closed file")
         if self.i >= len(self.reads):
             # script exhausted: EOF is sticky, otherwise "no data yet" for ever
             return b"" if (self.reads and self.reads[-1] == b"") else None
@@ -35,6 +53,18 @@ class _Sel:
     def __init__(self, answers):
         self.answers = list(answers)
         self.i = 0
+        self.registered = None
+
+    def register(self, fileobj, events, data=None):
+        self.registered = fileobj
+
+    def unregister(self, fileobj):
+        if fileobj is not self.registered:
+            raise KeyError(fileobj)
+        self.registered = None
+
+    def close(self):
+        pass
 
     def select(self, timeout):
         v = self.answers[self.i] if self.i < len(self.answers) else False
@@ -104,6 +134,144 @@ def model_line(events, ncalls):
     return " ".join(ws)
 
 
+# ------------------------------------------------------------------ one Device, several consecutive connections
+class _FakeSocket:
+    """What `socket.socket(AF_INET, SOCK_STREAM)` hands to Device._connect_socket: connect() succeeds at once and
+    makefile() is the scripted file of the next scripted connection."""
+
+    def __init__(self, net):
+        self.net, self.conn, self.closed = net, None, False
+
+    def setsockopt(self, *a):
+        pass
+
+    def settimeout(self, t):
+        pass
+
+    def setblocking(self, flag):
+        pass
+
+    def fileno(self):
+        return -1
+
+    def connect(self, addr):
+        self.conn = self.net.accept()
+
+    def makefile(self, mode="r", buffering=None, **kw):
+        return self.conn[0]
+
+    def close(self):
+        self.closed = True
+
+
+class _ModShim:
+    """A module with a few names replaced (everything else is the real module's)."""
+
+    def __init__(self, real, **over):
+        self._real = real
+        self.__dict__.update(over)
+
+    def __getattr__(self, k):
+        return getattr(self._real, k)
+
+
+class _Net:
+    """The scripted network: the k-th connect() of the Device gets the k-th (reads, select answers) script."""
+
+    def __init__(self, scripts):
+        self.scripts = [(_SockFile(r), _Sel(a)) for r, a in scripts]
+        self.k = 0
+        self.current = None
+
+    def accept(self):
+        self.current = self.scripts[self.k]
+        self.k += 1
+        return self.current
+
+    def _socket(self, *a, **kw):
+        return _FakeSocket(self)
+
+    def _create_connection(self, address, *a, **kw):
+        sock = _FakeSocket(self)
+        sock.connect(address)
+        return sock
+
+    def _selector(self):
+        return self.current[1]
+
+    @contextlib.contextmanager
+    def patched(self, devmod):
+        import selectors
+        import socket
+
+        real = devmod.socket, devmod.selectors
+        devmod.socket = _ModShim(socket, socket=self._socket, create_connection=self._create_connection)
+        devmod.selectors = _ModShim(selectors, DefaultSelector=self._selector, SelectSelector=self._selector,
+                                    PollSelector=self._selector, EpollSelector=self._selector)
+        try:
+            yield self
+        finally:
+            devmod.socket, devmod.selectors = real
+
+
+def _pending(d):
+    buf = d._read_buffer
+    return bytes(buf) if isinstance(buf, (bytes, bytearray)) else b"".join(bytes(c) for c in buf)
+
+
+def _calls(d, ncalls):
+    from gscrib.printrun.device import READ_EMPTY, READ_EOF
+
+    out = []
+    for _ in range(ncalls):
+        r = d.readline()
+        if r is READ_EOF:
+            out.append("E")
+        elif r == READ_EMPTY:
+            out.append("-")
+        else:
+            out.append("l" + bytes(r).hex())
+    return out
+
+
+def impl_session(conns, lower_seed):
+    """One Device object; for each (events, ncalls): connect(), ncalls x readline(), disconnect().
+
+    Per connection: the usual record, the bytes that were buffered when its first readline() was made
+    (`carry`), the bytes the Device actually took from the socket (`received`) and whether it read the
+    end-of-stream mark (`eof_seen`)."""
+    import gscrib.printrun.device as devmod
+
+    rng = random.Random(lower_seed)
+    net = _Net([lower_events(ev, rng) for ev, _ in conns])
+    d = devmod.Device()
+    recs = []
+    with net.patched(devmod):
+        for k, (ev, ncalls) in enumerate(conns):
+            d.connect("printer.local:23")
+            assert net.k == k + 1, "connect() did not open exactly one connection"
+            carry = _pending(d)
+            out = _calls(d, ncalls)
+            buf = _pending(d)
+            d.disconnect()
+            f = net.scripts[k][0]
+            taken = f.reads[: f.i]
+            recs.append({"rec": " ".join(out) + " | buf=" + buf.hex(), "carry": carry.hex(),
+                         "received": b"".join(x for x in taken if x).hex(),
+                         "eof_seen": any(x == b"" for x in taken)})
+    return recs
+
+
+def session_model_lines(conns, recs):
+    """The model is per connection (fresh buffer): bytes carried in are given to it as a leading chunk."""
+    out = []
+    for (ev, n), r in zip(conns, recs):
+        carry = bytes.fromhex(r["carry"])
+        # no readline() call on this connection: nothing of the model to compare (it would never take the leading chunk)
+        out.append(model_line(([("c", carry)] if carry else []) + list(ev), n) if n else None)
+    return out
+
+
 # ------------------------------------------------------------------ oracle (property on implementation output)
 def oracle(events, record):
     """The lines returned are exactly the stream cut after each newline; tail delivered at close."""
@@ -132,6 +300,59 @@ def oracle(events, record):
             return f"returned+buffered bytes {got!r} are not a prefix of the stream {stream!r}"
         if lines != expect[: len(lines)] and not (has_eof and lines[:-1] == expect[: len(lines) - 1]):
             return f"returned lines {lines!r} are not the first lines of the stream {expect!r}"
+    return None
+
+
+def oracle_life(conns, recs):
+    """Whole life of one Device: the lines returned, in order over all its connections, are everything it
+    received cut after each newline and at each close by the peer (unterminated tail delivered there)."""
+    NLb = b"\n"
+    received_all, lines_all, expect_all, carry = b"", [], [], b""
+    for k, ((events, ncalls), r) in enumerate(zip(conns, recs)):
+        at = f"connection {k + 1}: "
+        res, buf = r["rec"].split(" | buf=")
+        buf = bytes.fromhex(buf)
+        toks = res.split(" ") if res else []
+        lines = [bytes.fromhex(t[1:]) for t in toks if t.startswith("l")]
+        received, eof_seen = bytes.fromhex(r["received"]), r["eof_seen"]
+        sent = b"".join(e[1] for e in events if e[0] == "c")
+        has_eof = any(e[0] == "e" for e in events)
+        n_again = sum(1 for e in events if e[0] == "a")
+        backlog = len(expect_all) - len(lines_all)          # complete lines received earlier, not yet returned
+        if "E" in toks:
+            if not eof_seen:
+                return at + (f"end-of-stream reported although no close by the peer was read ({len(sent) - len(received)} "
+                             f"byte(s) of this connection's stream {sent!r} never delivered)")
+            if any(t.startswith("l") for t in toks[toks.index("E"):]):
+                return at + "a line was returned after end-of-stream"
+        received_all += received
+        carry_in, expect_before = carry, list(expect_all)
+        pieces = (carry + received).split(NLb)
+        carry = pieces.pop()
+        expect_all += [x + NLb for x in pieces]
+        if eof_seen:
+            if carry:
+                expect_all.append(carry)
+            carry = b""
+        lines_all += lines
+        if lines_all != expect_all[: len(lines_all)]:
+            j = next((i for i, (a, b) in enumerate(zip(lines_all, expect_all)) if a != b), min(len(lines_all), len(expect_all)))
+            return at + (f"line #{j + 1} of the Device's life is {lines_all[j]!r}, the received stream cut after each newline "
+                         f"(and at each peer close) has {expect_all[j] if j < len(expect_all) else None!r} there")
+        if b"".join(lines_all) + buf != received_all:
+            return at + (f"bytes lost or duplicated: returned+buffered {len(b''.join(lines_all)) + len(buf)} bytes, "
+                         f"received {len(received_all)}")
+        if "E" in toks and lines_all != expect_all:
+            return at + "end-of-stream reported before every received byte was delivered"
+        if ncalls >= backlog + sent.count(NLb) + n_again + (1 if has_eof else 0):
+            # enough calls for every line, every time-out and the close: every line of the stream must have come out
+            # (an unterminated tail may still be unread if the peer has not closed)
+            full = (carry_in + sent).split(NLb)
+            tail = full.pop()
+            full = expect_before + [x + NLb for x in full] + ([tail] if (has_eof and tail) else [])
+            if lines_all != full or (has_eof and not eof_seen):
+                return at + (f"{ncalls} readline() calls were enough to deliver the stream {sent!r}"
+                             f"{' and its end' if has_eof else ''}, but only {received!r} was read and {lines!r} returned")
     return None
 
 
@@ -191,6 +412,65 @@ def case_repr(events, ncalls):
     return {"calls": ncalls, "events": [e[0] if e[0] != "c" else "c" + e[1].hex() for e in events]}
 
 
+ENDINGS = ("close-nl", "close-tail", "close-early", "drop-clean", "drop-leftover")
+
+
+def gen_conn(rng, ending):
+    """One connection of a session.  How it ends:
+    close-nl       stream ends with a newline (or is empty), the peer closes, read up to end-of-stream
+    close-tail     stream ends with an unterminated tail, the peer closes, read up to end-of-stream
+    close-early    the peer closes, but the host disconnects after too few calls (bytes left buffered / unread)
+    drop-clean     the peer stays; every line is read, then the host disconnects (nothing buffered)
+    drop-leftover  the peer stays; the host disconnects with an unterminated tail (and maybe lines) buffered"""
+    n = rng.randint(0, rng.choice([0, 1, 3, 8, 30, 120, 400]))
+    dens = rng.choice([0.05, 0.2, 0.5])
+    alphabet = b"ab\r0123 ok:.XYZ\xff\x00"
+    stream = bytes(10 if rng.random() < dens else rng.choice(alphabet) for _ in range(n))
+    if ending in ("close-nl", "drop-clean"):
+        stream = stream + b"\n" if (stream or rng.random() < 0.7) else stream
+    elif ending in ("close-tail", "drop-leftover"):
+        stream += bytes([rng.choice(alphabet)])
+    events, i = [], 0
+    maxk = rng.choice([1, 2, 3, 16, 256])
+    pa = rng.choice([0.0, 0.1, 0.4])
+    while i < len(stream):
+        while rng.random() < pa:
+            events.append(("a",))
+        k = maxk if rng.random() < 0.3 else rng.randint(1, maxk)
+        events.append(("c", stream[i : i + k]))
+        i += k
+    while rng.random() < pa:
+        events.append(("a",))
+    closed = ending.startswith("close")
+    if closed:
+        events.append(("e",))
+    enough = stream.count(b"\n") + sum(1 for e in events if e[0] == "a")
+    if ending == "close-early":
+        ncalls = rng.randint(0, enough)
+    elif ending == "drop-leftover" and rng.random() < 0.5:
+        ncalls = rng.randint(0, enough)
+    else:
+        ncalls = enough + (rng.randint(1, 3) if closed else rng.randint(0, 1))
+    return events, ncalls
+
+
+def gen_session(rng):
+    """One Device, 2..6 consecutive connections with independent streams / fragmentations / endings."""
+    k = rng.choice([2, 2, 2, 3, 3, 4, 6])
+    endings = [rng.choice(ENDINGS) for _ in range(k)]
+    conns = []
+    for e in endings:
+        ev, n = gen_conn(rng, e)
+        if conns and rng.random() < 0.5:
+            n += 3          # lines carried in from an earlier connection need calls of their own
+        conns.append((ev, n))
+    return conns, endings, rng.randrange(1 << 30)
+
+
+def session_repr(conns, lower_seed):
+    return {"session": [case_repr(ev, n) for ev, n in conns], "lower_seed": lower_seed}
+
+
 def run_batch(R, cases, label):
     import random
 
@@ -211,12 +491,47 @@ def run_batch(R, cases, label):
             R.fail(case_repr(ev, n), msg, tag="split")
 
 
+def run_sessions(R, sessions, label):
+    recs_all = [impl_session(conns, seed) for conns, _, seed in sessions]
+    lines, where = [], []
+    for si, ((conns, _, _), recs) in enumerate(zip(sessions, recs_all)):
+        for ci, ln in enumerate(session_model_lines(conns, recs)):
+            if ln is not None:
+                lines.append(ln)
+                where.append((si, ci))
+    model_out = core.run_model("socket", lines)
+    bad = {}
+    for (si, ci), mo in zip(where, model_out):
+        if recs_all[si][ci]["rec"] != mo and si not in bad:
+            bad[si] = (ci, mo)
+    for si, ((conns, endings, seed), recs) in enumerate(zip(sessions, recs_all)):
+        rep = session_repr(conns, seed)
+        with_data = sum(1 for ev, _ in conns if any(e[0] == "c" for e in ev))
+        nl = sum(e[1].count(b"\n") for ev, _ in conns for e in ev if e[0] == "c")
+        R.case(rep, nontrivial=(with_data >= 2 and nl >= 1))
+        R.count(label, f"{label}:conns:{len(conns)}", *{f"{label}:{e}" for e in endings},
+                f"{label}:{'carry-in' if any(r['carry'] for r in recs) else 'no-carry'}")
+        for a, b in zip(endings, endings[1:]):
+            R.count(f"{label}:after:{a}")      # how the previous connection of a reconnect ended
+        if si in bad:
+            ci, mo = bad[si]
+            R.disagree("socket-readline", rep, recs[ci]["rec"], mo, step=ci)
+        msg = oracle_life(conns, recs)
+        if msg:
+            R.fail(rep, msg, tag="reconnect")
+
+
 def run(R: core.Run):
     R.rule = ("random byte streams (newline density 2-70%) x random fragmentations (1..256 bytes) x random "
-              "'no data yet' insertions x early stop; non-trivial = at least one newline and >= 3 socket events; distinct by hash")
+              "'no data yet' insertions x early stop; non-trivial = at least one newline and >= 3 socket events; distinct by hash; "
+              "plus sessions of 2..6 consecutive connections of ONE Device through connect()/disconnect() (each ending by peer "
+              "close after a newline / after an unterminated tail / unread, or by host disconnect with nothing / a tail buffered), "
+              "judged over the Device's whole life; non-trivial = >= 2 connections carrying data and >= 1 newline")
     R.assumptions = [
         "the OS socket layer / selectors deliver the bytes; the harness scripts `_socketfile.read` and `_selector.select`",
         "a real read() never returns b'' except at end-of-stream (modelled as the sticky `eof` event)",
+        "reconnects: `socket.socket` / `selectors.DefaultSelector` as seen by gscrib.printrun.device are scripted; "
+        "connect() always succeeds; the model is fed one connection at a time, bytes carried in as a leading chunk",
     ]
     corpus = [
         ([("c", b"ab\nc"), ("a",), ("c", b"d\n"), ("c", b"e"), ("e",)], 5),
@@ -231,6 +546,18 @@ def run(R: core.Run):
     run_batch(R, corpus, "corpus")
     cases = [gen_case(R.rng) for _ in range(R.n(3000, 60000))]
     run_batch(R, cases, "random")
+    E = ("e",)
+    session_corpus = [
+        # tail at peer close, then a fresh stream on the same Device
+        ([([("c", b"a\nb"), E], 4), ([("c", b"c\n"), ("c", b"d\n"), E], 4)], ["close-tail", "close-nl"], 1),
+        # host disconnects with `T:2` buffered: carried into the next connection (see module docstring)
+        ([([("c", b"ok\nT:2")], 2), ([("c", b"start\n"), E], 3)], ["drop-leftover", "close-nl"], 2),
+        # clean drop, empty connection with a tail only, peer still alive on the last one
+        ([([("c", b"x\n")], 2), ([("a",), ("c", b"y"), E], 4), ([("c", b"z\n"), ("c", b"w\n")], 2)],
+         ["drop-clean", "close-tail", "drop-clean"], 3),
+    ]
+    run_sessions(R, session_corpus, "reconnect-corpus")
+    run_sessions(R, [gen_session(R.rng) for _ in range(R.n(700, 12000))], "reconnect")
     if R.thorough:
         ex = list(exhaustive_cases(6))
         run_batch(R, ex, "exhaustive<=6")
@@ -247,6 +574,12 @@ def run(R: core.Run):
             msg = oracle(ev, io)
             if msg:
                 R.fail(case_repr(ev, n), msg, tag="split")
+        for _ in range(R.n(1500, 5000)):
+            conns, _, seed = gen_session(R.rng)
+            R.evaluations += 1
+            msg = oracle_life(conns, impl_session(conns, seed))
+            if msg:
+                R.fail(session_repr(conns, seed), msg, tag="reconnect")
     return {}, {}
 
 
@@ -259,6 +592,21 @@ def replay(data):
     if not case:
         print("replay: no case recorded (", data.get("no_longer_checks"), ")")
         return 1
+    unhex = lambda evs: [("c", bytes.fromhex(e[1:])) if e.startswith("c") else (e,) for e in evs]
+    if "session" in case:
+        conns = [(unhex(c["events"]), c["calls"]) for c in case["session"]]
+        recs = impl_session(conns, case["lower_seed"])
+        mls = session_model_lines(conns, recs)
+        mos = iter(core.run_model("socket", [m for m in mls if m is not None]))
+        mos = [next(mos) if m is not None else r["rec"] for m, r in zip(mls, recs)]
+        for k, (r, mo) in enumerate(zip(recs, mos)):
+            print(f"connection {k + 1}: carried in {bytes.fromhex(r['carry'])!r}, read {bytes.fromhex(r['received'])!r}"
+                  f"{' + end-of-stream' if r['eof_seen'] else ''}")
+            print("  impl :", r["rec"])
+            print("  model:", mo)
+        msg = oracle_life(conns, recs)
+        print("oracle:", msg or "ok")
+        return 1 if (msg or any(r["rec"] != mo for r, mo in zip(recs, mos))) else 0
     ev = [("c", bytes.fromhex(e[1:])) if e.startswith("c") else (e,) for e in case["events"]]
     io = impl_run(ev, case["calls"], random.Random(0))
     mo = core.run_model("socket", [model_line(ev, case["calls"])])[0]
